@@ -2,7 +2,8 @@
 from plib import *
 from props.common import LineRunner
 
-LEAN_TARGETS = ["Plonk.Props.C20"]
+LEAN_TARGETS = ["Plonk.Props.C20", "Plonk.Props.G1Law"]
+EXTRA_AUDITS = ['G1Law']
 ASSUMPTIONS = ["pairing decided in the trapdoor view: bilinearity + non-degeneracy of the BLS12-381 pairing and prime order of G1/G2 "
                "are assumed; the secret x is known to the model because the harness scripts the setup RNG",
                "binding against adversarially chosen witnesses is computational and not claimed"]
